@@ -133,7 +133,7 @@ func Exec(r Run) (*Result, error) {
 	if r.Workers > 0 {
 		w = strconv.Itoa(r.Workers)
 	}
-	args := []string{"-XX:+UseParallelGC"}
+	args := []string{"-XX:+UseParallelGC", "-Dfile.encoding=UTF-8", "-Dstdout.encoding=UTF-8", "-Dsun.stdout.encoding=UTF-8"}
 	if r.Stack != "" {
 		args = append(args, "-Xss"+r.Stack)
 	}
